@@ -227,6 +227,11 @@ func verifStreamDecode(n, maxCalls, cap0 int, withFail bool) {
 		v.Assert(off > lastOff, "Decode returned success without consuming input")
 		lastOff = off
 	}
+	if verifAliasOnly {
+		// registered under C06: only the ownership assertion inside the decoder stub counts
+		v.Cover("clean-eof")
+		return
+	}
 	v.Assert(err != nil, "Decode keeps returning nil: the stream never terminates")
 	if err == nil {
 		return
@@ -291,6 +296,16 @@ func verifStreamDecode(n, maxCalls, cap0 int, withFail bool) {
 	if len(want) >= 2 {
 		v.Cover("two-values")
 	}
+}
+
+var verifAliasOnly bool
+
+// VerifC06StreamDecodeCopy: the same exploration, checking only that the text handed to the
+// decoder is a private copy of the (reusable, pooled) read buffer.
+func VerifC06StreamDecodeCopy() {
+	verifAliasOnly = true
+	defer func() { verifAliasOnly = false }()
+	verifStreamDecode(3, 3, 2, false)
 }
 
 // VerifC17StreamDecode2: debugging bound.
